@@ -272,6 +272,17 @@ func c15CaseInsts(tier string) []CaseInst {
 	mk("U02", []inP{{"a", "string"}, {"n", "int"}})
 	mk("U03", []inP{{"n", "int"}, {"a", "string"}})
 	mk("U04", []inP{{"n", "int"}, {"a", "string"}, {"b", "bool"}})
+	// Curry over signatures with named results that clash with names the generated code uses (F43)
+	nr := func(cid, sig string) {
+		out = append(out, CaseInst{ID: cid, Desc: "curry func" + sig, Gen: func(g *Gen, id string) []HarnessSrc {
+			g.addFunc("c15decl_"+id, fmt.Sprintf("var c15calls%s int\nvar c15a%s int\nvar c15b%s int\nvar c15r%s int\n\nfunc c15nr%s(p int, q int) int {\n\tc15calls%s++\n\tc15a%s, c15b%s = p, q\n\treturn c15r%s\n}\n\nvar c15nrf%s func%s\n", id, id, id, id, id, id, id, id, id, id, sig))
+			body := fmt.Sprintf("\tc15calls%s = 0\n\tc15nrf%s = c15nr%s\n\tc15r%s = vx.Nondet[int](\"r\")\n\tx := vx.Nondet[int](\"x\")\n\ty := vx.Nondet[int](\"y\")\n\to := deriveCurry%s(c15nrf%s)(x)(y)\n"+
+				"\tvx.Assert(c15calls%s == 1 && c15a%s == x && c15b%s == y && o == c15r%s, \"curried call = one call of f with the same arguments and results\")\n", id, id, id, id, id, id, id, id, id, id)
+			return []HarnessSrc{h("VX_C15_currynamed_"+id, "curry", body)}
+		}})
+	}
+	nr("N01", "(_ int, b int) (param_0 int)")
+	nr("N02", "(a int, b int) (f int)")
 	return out
 }
 
